@@ -338,6 +338,15 @@ class WritableVersion(dns.zone.WritableVersion):
                 self.delegations.add(name)
                 self.update_glue_flag(name, True)
         node.replace_rdataset(rdataset)
+        if (
+            name in self.delegations
+            and node.get_rdataset(self.zone.rdclass, dns.rdatatype.NS) is None
+        ):
+            # Storing CNAME-kind data drops the node's other data, so the NS
+            # rdataset that made this name a zone cut is gone.
+            node.flags &= ~NodeFlags.DELEGATION  # type: ignore
+            self.delegations.discard(name)  # pyright: ignore
+            self.update_glue_flag(name, False)
 
     def delete_rdataset(
         self,
